@@ -42,6 +42,14 @@ def isPop : Event → Bool
   | .pop _ _ => true
   | _ => false
 
+/-- a worker takes a kill request (workerKill--) and leaves -/
+def isKillExit : Event → Bool
+  | .killExit _ => true
+  | _ => false
+
+theorem isKillExit_abs (s : State) (e : Event) : (absEvent s e).isKillExit = isKillExit e := by
+  cases e <;> simp [absEvent, CEvent.isKillExit, isKillExit]
+
 theorem internal_abs (s : State) (e : Event) : (absEvent s e).internal = isInternal e := by
   cases e <;> simp [absEvent, CEvent.internal, isInternal]
 
